@@ -94,9 +94,30 @@ class PathFaultHook(object):
         return model.run_op(name, args, impl)
 
 
-def run_model(world, steps, hook=None, uid=UID, model=None):
+class OneShotFault(object):
+    """fail the n-th system call named ``opname`` that satisfies ``pred(args)`` with ``errno_``, once"""
+
+    def __init__(self, opname, errno_, pred=None, nth=0):
+        self.opname, self.errno_, self.pred, self.nth = opname, errno_, pred, nth
+        self.seen = 0
+        self.injected = []
+
+    def __call__(self, model, name, args, impl):
+        if name == self.opname and not self.injected and (self.pred is None or self.pred(args)):
+            if self.seen == self.nth:
+                self.injected.append((model.nops, name, self.errno_))
+                model.nops += 1
+                model.oplog.append((name, repr(args), 'FAULT', self.errno_))
+                raise oserr(self.errno_, args[0] if args and isinstance(args[0], str) else None)
+            self.seen += 1
+        return model.run_op(name, args, impl)
+
+
+def run_model(world, steps, hook=None, uid=UID, model=None, max_ops=None):
     """-> (model, results); a step killed by Crash yields {'crashed': True} and ends the run"""
     m = model if model is not None else W.build_model(world, uid=uid)
+    if max_ops is not None:
+        m.max_ops = max_ops
     results = []
     for st in steps:
         if 'cmd' in st:
